@@ -118,36 +118,56 @@ def run_check(modname, tier="quick", vseed=0, workers=None, scale=1.0, wall_limi
     per_phase = Counter()
     skipped = 0
     ctx = multiprocessing.get_context("fork")
-    try:
-        with ProcessPoolExecutor(max_workers=workers, mp_context=ctx) as ex:
-            futs = {}
-            for (pi, ph, lo, hi) in jobs:
-                futs[ex.submit(_worker, modname, tier, vseed, pi, ph, lo, hi)] = (pi, lo, hi)
-            for fut in as_completed(futs):
-                if wall_limit and time.time() - t_start > wall_limit:
-                    # a wall limit only ends the batch between chunks
-                    for f in futs:
-                        if f.cancel():
-                            skipped += 1
-                    wall_limit = None
-                if fut.cancelled():
-                    continue
-                pi, lo, res = fut.result()
-                tot["runs"] += res["runs"]
-                per_phase[phases[pi]["name"]] += res["runs"]
-                for k in ("counts", "faults", "probes"):
-                    tot[k].update(res[k])
-                tot["classes"] |= res["classes"]
-                tot["schedules"] |= res["schedules"]
-                tot["sim_s"] += res["sim_s"]
-                tot["cpu_s"] += res["cpu_s"]
-                violations.extend(res["violations"])
-                errors.extend(res["errors"])
-                if res["sample"] is not None:
-                    key = (pi, lo)
-                    samples[key] = res["sample"]
-    except BrokenProcessPool as e:
-        errors.append("worker process died (watchdog or crash): %r" % (e,))
+    pending = list(jobs)
+    retried = 0
+    for attempt in range(2):
+        if not pending:
+            break
+        todo, pending = pending, []
+        completed = set()
+        try:
+            with ProcessPoolExecutor(max_workers=workers, mp_context=ctx) as ex:
+                futs = {}
+                for job in todo:
+                    (pi, ph, lo, hi) = job
+                    futs[ex.submit(_worker, modname, tier, vseed, pi, ph, lo, hi)] = job
+                for fut in as_completed(futs):
+                    if wall_limit and time.time() - t_start > wall_limit:
+                        # a wall limit only ends the batch between chunks
+                        for f in futs:
+                            if f.cancel():
+                                skipped += 1
+                        wall_limit = None
+                    if fut.cancelled():
+                        continue
+                    try:
+                        pi, lo, res = fut.result()
+                    except BrokenProcessPool:
+                        continue            # collected below: every chunk without a result is executed again
+                    completed.add((pi, lo))
+                    tot["runs"] += res["runs"]
+                    per_phase[phases[pi]["name"]] += res["runs"]
+                    for k in ("counts", "faults", "probes"):
+                        tot[k].update(res[k])
+                    tot["classes"] |= res["classes"]
+                    tot["schedules"] |= res["schedules"]
+                    tot["sim_s"] += res["sim_s"]
+                    tot["cpu_s"] += res["cpu_s"]
+                    violations.extend(res["violations"])
+                    errors.extend(res["errors"])
+                    if res["sample"] is not None:
+                        key = (pi, lo)
+                        samples[key] = res["sample"]
+        except BrokenProcessPool:
+            pass
+        pending = [j for j in todo if (j[0], j[2]) not in completed and not (skipped and wall_limit is None)]
+        if pending and attempt == 0:
+            # a worker process died (killed from outside, out of memory, interpreter crash): the chunks that were
+            # lost are executed once more in a fresh pool; a second death is a harness error
+            retried = len(pending)
+            print("NOTE: a worker process died; %d chunk(s) are executed again in a fresh pool" % retried, file=out)
+    if pending:
+        errors.append("worker process died twice (watchdog or crash); %d chunk(s) not executed" % len(pending))
 
     wall = time.time() - t_start
     # ---- triage -------------------------------------------------------------------
@@ -225,6 +245,7 @@ def run_check(modname, tier="quick", vseed=0, workers=None, scale=1.0, wall_limi
         "workers": workers,
         "cpu_seconds": round(tot["cpu_s"], 2),
         "chunks_skipped_by_wall_limit": skipped,
+        "chunks_executed_again_after_worker_death": retried,
         "known_findings_hit": [{"sig": s, "runs": n} for s, n in known_hit],
         "new_violation_signatures": [s for s, _, _, _ in new_violations],
         "exhaustive": False,
